@@ -350,7 +350,7 @@ class C13(vlib.Spec):
                                         "sidx_keep_tie"]]
     go_driver = "c13"
     lean_driver = "C13"
-    counts = {"quick": 2600, "thorough": 40000}
+    counts = {"quick": 2600, "thorough": 32000}
     trusted_base = [
         "Lean 4.33.0 kernel",
         "correspondence check: Go driver hooks/banyand/internal/verifdrv/c13 (+ hooks/banyand/trace/zz_verif_c13*.go, "
